@@ -78,6 +78,6 @@ IsZero(p, v) == CASE p = "MAJOR" -> v.major = 0 [] p = "MINOR" -> v.minor = 0 []
                   [] p = "INC0" -> v.inc0 = 0 [] OTHER -> FALSE
 
 \* README normalisation rules for {pep440_version}: the unpadded / short counterpart of a part
-Pep440Subst(p) == CASE p = "0W" -> "WW" [] p = "0U" -> "UU" [] p = "0V" -> "VV" [] p = "0M" -> "MM" [] p = "0D" -> "DD"
+Pep440Subst(p) == CASE p = "0Y" -> "YY" [] p = "0G" -> "GG" [] p = "0W" -> "WW" [] p = "0U" -> "UU" [] p = "0V" -> "VV" [] p = "0M" -> "MM" [] p = "0D" -> "DD"
                     [] p = "00J" -> "JJJ" [] p = "BUILD" -> "BLD" [] p = "TAG" -> "PYTAG" [] OTHER -> p
 =============================================================================
